@@ -378,8 +378,10 @@ def run_check(pid, tier, module):
         ev = {'property_id': pid, 'tier': tier, 'seed': seed, 'level': 'proof', 'coverage': cov,
               'assumptions': getattr(module, 'ASSUMPTIONS', []) + ctx.assumptions,
               'wall_s': round(time.time() - t0, 2), 'violations': violations}
-        (VERIF / 'evidence').mkdir(exist_ok=True)
-        (VERIF / 'evidence' / f'{pid}.json').write_text(json.dumps(ev, indent=1, default=str, ensure_ascii=False))
+        # evidence describes a run against /repo itself; a mutation run (TCV_REPO = a scratch copy) must not overwrite it
+        evdir = VERIF / 'evidence' if REPO == Path('/repo') else Path(tempfile.gettempdir()) / 'tcv-mutation-evidence'
+        evdir.mkdir(exist_ok=True)
+        (evdir / f'{pid}.json').write_text(json.dumps(ev, indent=1, default=str, ensure_ascii=False))
         if ctx.evaluations == 0:
             raise BrokenCheck('no case was evaluated')
         if hasattr(module, 'sanity') and exit_code == 0:
